@@ -8,6 +8,13 @@ pub open spec fn is_dep_ordering<T>(v: Seq<T>, items: Seq<T>, deps: spec_fn(T) -
     &&& forall|k: int| 0 <= k < items.len() ==> v.contains(#[trigger] items[k])
     &&& forall|i: int| 0 <= i < v.len() ==> (#[trigger] deps(v[i])).subset_of(v.take(i).to_set())
 }
+/// `s` holds, with every member, everything the member depends on
+pub open spec fn closed_under<T>(s: Set<T>, deps: spec_fn(T) -> Set<T>) -> bool { forall|x: T| s.contains(x) ==> (#[trigger] deps(x)).subset_of(s) }
+pub open spec fn covers<T>(s: Set<T>, items: Seq<T>) -> bool { forall|k: int| 0 <= k < items.len() ==> s.contains(#[trigger] items[k]) }
+/// `v` lists nothing but the listed items and what they (transitively) depend on: it lies inside every dependency-closed set holding the items
+pub open spec fn only_reachable<T>(v: Seq<T>, items: Seq<T>, deps: spec_fn(T) -> Set<T>) -> bool {
+    forall|s: Set<T>, i: int| #[trigger] closed_under(s, deps) && covers(s, items) && 0 <= i < v.len() ==> s.contains(#[trigger] v[i])
+}
 /// data-structure invariant of the orderer (a free function: a member of DepOrderer<P> would be a cyclic trait reference)
 pub open spec fn inv_raw<T>(stack: Seq<T>, seen: Set<T>, pending: Set<T>, deps: spec_fn(T) -> Set<T>) -> bool {
     &&& stack.no_duplicates()
